@@ -385,11 +385,13 @@ def rule_save_bookkeeping(ctx, r5):
         else:
             sb = st[0][0]
             pos, neg, _ = call_result_edges(fn, sb)
-            after = fn.reach_after(sb)
+            # the error world of the store call: everything reachable from it without following one of its success
+            # edges; no bookkeeping write may lie there (a path that never called store() is not concerned)
+            after = fn.reach(list(fn.g.get(sb, ())), removed_edges=pos) if pos else fn.reach_after(sb)
             bad = []
             for b in after:
                 for fld in ('RetainManager.last_snapshot', 'RetainManager.dirty', 'RetainManager.last_save'):
-                    if fn.assigns_field(b, lambda f, fld=fld: f.endswith(fld)) and not (pos and guarded(fn, b, pos | _edges_not_via(fn, sb))):
+                    if fn.assigns_field(b, lambda f, fld=fld: f.endswith(fld)):
                         bad.append((b, fld))
             # ... and not before it either: a write (assignment or `&mut field` handed to a call such as Option::insert)
             # on a path that goes on to call store() records the snapshot as saved before it was written
